@@ -215,6 +215,8 @@ func Parse(input string) (*Tree, error) {
 // Parse begins parsing, returning an error, if any.
 func (t *Tree) Parse() error {
 	go t.lex.tokenize()
+	// On a parse error tokens remain unread; release the lexer goroutine.
+	defer t.lex.stop()
 	for {
 		n, err := t.parse()
 		if err != nil {
